@@ -33,6 +33,9 @@ def raw_config(sc):
         var.update(lower_bounds=1.0, upper_bounds=0.0)
     elif b == "badlen":
         var.update(lower_bounds=[-1.0] * (V + 1), upper_bounds=[2.0] * V)
+    elif b == "crossfix":
+        k = min(2, V)
+        var.update(lower_bounds=[1.0 if v == k else -1.0 for v in range(1, V + 1)], upper_bounds=[0.0 if v == k else 2.0 for v in range(1, V + 1)])
     m = sc["mask"]
     if m == "scalar":
         var["mask"] = True
@@ -134,6 +137,58 @@ def transformed(raw, sc, plain):
     return out
 
 
+def numpy_route(raw):
+    """The same configuration with every numeric leaf given as a numpy array of the target type in its most compact
+    shape (scalars as 0-d arrays, a single row as a vector): after validation the caller scribbles over its arrays; the
+    validated configuration must not notice (no stored array may be a view of a caller's array)."""
+    inputs = []
+
+    def conv(x, key=None):
+        if isinstance(x, dict):
+            return {k: conv(v, k) for k, v in x.items()}
+        if key in ("options", "method", "shared"):
+            return x
+        if isinstance(x, bool) or (isinstance(x, list) and x and all(isinstance(v, bool) for v in x)):
+            a = np.array(x, dtype=np.bool_)
+        elif isinstance(x, float):
+            a = np.array(x, dtype=np.float64)
+        elif isinstance(x, int) and key in ("samplers",):
+            a = np.array(x, dtype=np.intc)
+        elif isinstance(x, list) and x and all(isinstance(v, (int, float)) and not isinstance(v, bool) for v in x):
+            a = np.array(x, dtype=np.intc if key == "samplers" else np.float64)
+        elif isinstance(x, list) and x and all(isinstance(v, list) for v in x):
+            a = np.array(x, dtype=np.float64)
+            if a.shape[0] == 1:
+                a = a[0].copy()
+        elif isinstance(x, list):
+            return [conv(v, key) for v in x]
+        else:
+            return x
+        inputs.append(a)
+        return a
+    raw_np = conv(_deep(raw))
+    raw_np["linear_constraints"] = raw_np.get("linear_constraints") or {"coefficients": np.ones(len(np.atleast_1d(raw["variables"]["initial_values"]))),
+                                                                          "lower_bounds": np.array(-1.0), "upper_bounds": np.array(2.0)}
+    inputs += [v for v in raw_np["linear_constraints"].values() if isinstance(v, np.ndarray)]
+    try:
+        c = EnOptConfig.model_validate(raw_np)
+    except (ValidationError, ValueError, TypeError):
+        return True
+    before = json.dumps(c.model_dump(round_trip=True), default=jsonable, sort_keys=True)
+    for a in inputs:
+        if a.dtype == np.bool_:
+            a[...] = ~a
+        else:
+            a[...] = a + 1000
+    after = json.dumps(c.model_dump(round_trip=True), default=jsonable, sort_keys=True)
+    return before == after
+
+
+def _deep(x):
+    import copy
+    return copy.deepcopy(x)
+
+
 def jsonable(o):
     if isinstance(o, np.ndarray):
         return o.tolist()
@@ -181,7 +236,7 @@ def drive(sc):
     raw = raw_config(sc)
     e = {"ev": "Canon", **{k: sc[k] for k in ("V", "R", "rwp", "owp", "bnd", "mask", "ptype", "magn", "rms", "pms", "lin", "nl")},
          "accepted": False, "first": dict(EMPTY), "again": dict(EMPTY), "sameobject": True, "mutations": [], "error": "",
-         "tf": dict(NOTDONE)}
+         "tf": dict(NOTDONE), "independent_of_callers_arrays": True}
     try:
         c = EnOptConfig.model_validate(raw)
     except (ValidationError, ValueError) as exc:
@@ -200,6 +255,7 @@ def drive(sc):
     mutate(c, "config", muts, set())
     e["mutations"] = muts
     e["tf"] = transformed(raw, sc, c)
+    e["independent_of_callers_arrays"] = bool(numpy_route(raw))
     nondefault = sum([sc["rwp"] != "ones", sc["owp"] != "one", sc["bnd"] != "default", sc["mask"] != "none", sc["ptype"] != "abs",
                       sc["magn"] != "scalar", sc["rms"] >= 0, sc["pms"] >= 0, sc["lin"] != "none", sc["nl"] != "none"])
     return [e], {"nontrivial": bool(nondefault >= 2), "key": str(sc), "rejected": False, "ptype": sc["ptype"],
